@@ -1003,38 +1003,41 @@ func (self *_parser) parseRelationalExpression() ast.Expression {
 		self.scope.allowIn = allowIn
 	}()
 
-	switch self.token {
-	case token.LESS, token.LESS_OR_EQUAL, token.GREATER, token.GREATER_OR_EQUAL:
-		tkn := self.token
-		self.next()
-		return &ast.BinaryExpression{
-			Operator:   tkn,
-			Left:       left,
-			Right:      self.parseRelationalExpression(),
-			Comparison: true,
-		}
-	case token.INSTANCEOF:
-		tkn := self.token
-		self.next()
-		return &ast.BinaryExpression{
-			Operator: tkn,
-			Left:     left,
-			Right:    self.parseRelationalExpression(),
-		}
-	case token.IN:
-		if !allowIn {
+	// RelationalExpression is left-associative: a < b < c is (a < b) < c
+	for {
+		switch self.token {
+		case token.LESS, token.LESS_OR_EQUAL, token.GREATER, token.GREATER_OR_EQUAL:
+			tkn := self.token
+			self.next()
+			left = &ast.BinaryExpression{
+				Operator:   tkn,
+				Left:       left,
+				Right:      self.parseShiftExpression(),
+				Comparison: true,
+			}
+		case token.INSTANCEOF:
+			tkn := self.token
+			self.next()
+			left = &ast.BinaryExpression{
+				Operator: tkn,
+				Left:     left,
+				Right:    self.parseShiftExpression(),
+			}
+		case token.IN:
+			if !allowIn {
+				return left
+			}
+			tkn := self.token
+			self.next()
+			left = &ast.BinaryExpression{
+				Operator: tkn,
+				Left:     left,
+				Right:    self.parseShiftExpression(),
+			}
+		default:
 			return left
 		}
-		tkn := self.token
-		self.next()
-		return &ast.BinaryExpression{
-			Operator: tkn,
-			Left:     left,
-			Right:    self.parseRelationalExpression(),
-		}
 	}
-
-	return left
 }
 
 func (self *_parser) parseEqualityExpression() ast.Expression {
